@@ -155,6 +155,7 @@ pub fn node_stream(seed: u64, histories: usize, cfg: Cfg) -> Sink {
             sink.count("node.msg.fill-to-cap");
         }
         let mut script: std::collections::VecDeque<Option<String>> = Default::default();
+        let mut history_dead = false;
         while i < nops {
             i += 1;
             // now and then a scripted exchange with one connected peer: HAVE, handshake completes,
@@ -318,6 +319,7 @@ pub fn node_stream(seed: u64, histories: usize, cfg: Cfg) -> Sink {
                     let dead = out.starts_with("panic");
                     sink.push(format!("n {op}"), out, "-".into());
                     if dead {
+                        history_dead = true;
                         break;
                     }
                     want_drain = script.is_empty() && rng.chance(3, 5);
@@ -330,10 +332,74 @@ pub fn node_stream(seed: u64, histories: usize, cfg: Cfg) -> Sink {
                     sink.push(format!("n drain {ch}"), out, "-".into());
                     sink.count("node.drain");
                     if dead {
+                        history_dead = true;
                         break;
                     }
                 }
             }
+        }
+        if !history_dead {
+                // teardown: cancel every query, complete every blockstore call, close every connection;
+                // afterwards the node must retain nothing (C13)
+                let mut ops: Vec<String> = view.queries.iter().map(|q| format!("cancel {q}")).collect();
+                ops.push("drain".into());
+                let mut dead = false;
+                let mut round = 0;
+                loop {
+                    for op in std::mem::take(&mut ops) {
+                        let line = if op == "drain" { "drain".to_string() } else { op.clone() };
+                        let out = ex.exec(&line);
+                        absorb(&mut view, &out);
+                        dead |= out.starts_with("panic");
+                        if op == "drain" {
+                            sink.push(format!("n drain {}", choices(&out)), out, "-".into());
+                        } else {
+                            sink.push(format!("n {op}"), out, "-".into());
+                        }
+                    }
+                    if dead {
+                        break;
+                    }
+                    let pend: Vec<(u64, bool)> = view.pending.iter().map(|(s, p)| (*s, *p)).collect();
+                    view.pending.clear();
+                    for (seq, put) in pend {
+                        ops.push(format!("complete {seq} {}", if put { "putok" } else { "miss" }));
+                    }
+                    if round == 1 {
+                        let all: Vec<(u64, Vec<u64>)> = view.conns.iter().map(|(p, cs)| (*p, cs.iter().copied().collect())).collect();
+                        view.conns.clear();
+                        for (p, cs) in all {
+                            let n = cs.len();
+                            for (j, c) in cs.iter().enumerate() {
+                                ops.push(format!("closed {p} {c} {}", n - 1 - j));
+                            }
+                        }
+                    }
+                    ops.push("drain".into());
+                    round += 1;
+                    // server lookup tasks work through their CIDs one blockstore call at a time
+                    if round > 3 && ops.len() == 1 {
+                        // nothing was pending before this last drain: run it and stop
+                        for op in std::mem::take(&mut ops) {
+                            let out = ex.exec(&op);
+                            absorb(&mut view, &out);
+                            dead |= out.starts_with("panic");
+                            sink.push(format!("n drain {}", choices(&out)), out, "-".into());
+                        }
+                        if view.pending.is_empty() {
+                            break;
+                        }
+                    }
+                    if round > 4000 {
+                        dead = true;
+                        break;
+                    }
+                }
+                if !dead {
+                    let out = ex.exec("assert-empty");
+                    sink.push("n assert-empty".into(), out, "empty".into());
+                    sink.count("node.teardown");
+                }
         }
     }
     sink
